@@ -244,6 +244,7 @@ let parse_rscript t : rev0 list =
     | "p" -> RPending | "e" -> REof | "x" -> RErr
     | "i" -> RErr     (* an interrupted read: tokio's read_exact reports it as the error it is; only used where one decode call is observed *)
     | s when String.length s >= 2 && String.sub s 0 2 = "t:" -> RPending
+    | s when String.length s >= 2 && String.sub s 0 2 = "w:" -> RPending     (* the peer waits for output: in the model the answer is on the stream before the next read *)
     | s when String.length s >= 2 && String.sub s 0 2 = "c:" -> RChunk (bytes_of_tok ("x" ^ String.sub s 2 (String.length s - 2)))
     | s -> raise (Parse ("rev " ^ s))) n
 let parse_wscript t : wev list =
@@ -252,6 +253,7 @@ let parse_wscript t : wev list =
      script that is q polls accepting one octet each (C09_write_fault: the outcome is the same) *)
   List.concat (parse_list t (fun t -> match next t with
     | "p" -> [WPending] | "x" -> [WErr]
+    | "v" -> []          (* the writer says it gathers (is_write_vectored): what reaches the stream is the same *)
     | "i" -> [WErr]      (* an interrupted write: tokio's write_all reports it as the error it is *)
     | s when String.length s >= 2 && String.sub s 0 2 = "t:" -> [WPending]
     | s when String.length s >= 2 && String.sub s 0 2 = "a:" -> [WAccept (n_of_hex (String.sub s 2 (String.length s - 2)))]
